@@ -29,37 +29,37 @@ func (c *Clause) Name() string {
 }
 
 type LoopSpec struct {
-	Invariants []*Clause
-	Decreases  *Clause
-	Unroll     int // >0: unroll this many times instead of using an invariant (bounded by operand width)
-	WritesFresh bool // every heap write in the loop targets an object allocated after function entry (or a loop-invariant root)
+	Invariants  []*Clause
+	Decreases   *Clause
+	Unroll      int      // >0: unroll this many times instead of using an invariant (bounded by operand width)
+	WritesFresh bool     // every heap write in the loop targets an object allocated after function entry (or a loop-invariant root)
 	Assigns     []string // loop frame: the objects (assigns designators, evaluated at loop entry) the body may write besides loop-invariant roots and objects it allocates
 }
 
 // Contract is everything stated about one function.
 type Contract struct {
-	Key      string // full ssa name, e.g. (*github.com/biogo/biogo/seq/linear.Seq).RevComp
-	ShortKey string
-	PkgPath  string
-	Props    []string
-	Requires []*Clause
-	Ensures  []*Clause
-	Exsures  []*Clause // what holds when leaving by an error-valued panic; absent = such exits forbidden
-	Panics   []*Clause // conditions under which the function is allowed to panic (evaluated at each explicit panic)
-	Throws   bool      // may leave by an error-valued (non runtime.Error) panic
-	Recovers bool      // as a deferred function, a normal return stops a panic
-	Assigns  []*Clause
-	Loops    map[int]*LoopSpec
-	Trusted  bool   // contract is assumed, body not verified (external or explicitly trusted)
-	Inline   bool   // always inline instead of using the contract at call sites
-	Pure     bool   // no heap effects (assigns nothing)
-	MayPanic bool   // fatal panics are part of the documented behaviour (not an obligation)
-	Mode     string // "" (int) or "bv"
-	Where    string
-	Lemma    bool
-	Used     bool
-	Notes    []string
-	Ghosts   []*SpecFunc // per-application uninterpreted witness functions
+	Key       string // full ssa name, e.g. (*github.com/biogo/biogo/seq/linear.Seq).RevComp
+	ShortKey  string
+	PkgPath   string
+	Props     []string
+	Requires  []*Clause
+	Ensures   []*Clause
+	Exsures   []*Clause // what holds when leaving by an error-valued panic; absent = such exits forbidden
+	Panics    []*Clause // conditions under which the function is allowed to panic (evaluated at each explicit panic)
+	Throws    bool      // may leave by an error-valued (non runtime.Error) panic
+	Recovers  bool      // as a deferred function, a normal return stops a panic
+	Assigns   []*Clause
+	Loops     map[int]*LoopSpec
+	Trusted   bool   // contract is assumed, body not verified (external or explicitly trusted)
+	Inline    bool   // always inline instead of using the contract at call sites
+	Pure      bool   // no heap effects (assigns nothing)
+	MayPanic  bool   // fatal panics are part of the documented behaviour (not an obligation)
+	Mode      string // "" (int) or "bv"
+	Where     string
+	Lemma     bool
+	Used      bool
+	Notes     []string
+	Ghosts    []*SpecFunc          // per-application uninterpreted witness functions
 	Callbacks map[string]*Contract // contracts of function-typed parameters (calls through them use these)
 }
 
@@ -85,9 +85,9 @@ type GlobalFact struct {
 
 // GhostField is ghost state attached to objects (a heap of its own, only visible to specifications).
 type GhostField struct {
-	Name string
-	Arg  TypeExpr
-	Ret  TypeExpr
+	Name    string
+	Arg     TypeExpr
+	Ret     TypeExpr
 	PkgPath string
 }
 
@@ -104,12 +104,12 @@ type ChanInv struct {
 
 type ContractSet struct {
 	Mailboxes map[string]bool // struct fields (pkg.Type.field) holding a capacity-1 channel used by one goroutine at a time
-	ChanInvs map[string]*ChanInv
-	Ghosts  map[string]*GhostField
-	Funcs   map[string]*Contract
-	Specs   map[string]*SpecFunc // by name (package-local names are global here; duplicates rejected)
-	Globals []*GlobalFact
-	Files   []string
+	ChanInvs  map[string]*ChanInv
+	Ghosts    map[string]*GhostField
+	Funcs     map[string]*Contract
+	Specs     map[string]*SpecFunc // by name (package-local names are global here; duplicates rejected)
+	Globals   []*GlobalFact
+	Files     []string
 }
 
 func NewContractSet() *ContractSet {
